@@ -87,9 +87,41 @@ def _mut(sim, b, lo, hi):
     return b
 
 
+def tlv_walk(sim, img, start, end, reserved=()):
+    """data area = NULL TLVs, maybe a proprietary TLV, then the NDEF message TLV placed so that its tag, its length
+    field or its value end around the last byte of the data area (no control TLVs: the value is contiguous but for
+    the statically reserved bytes of a Type 1 Tag)"""
+    free = [a for a in range(start, end) if a not in reserved]
+    for a in free:
+        img[a] = 0x00
+    back = sim.wpick("walk.back", [(2, 1), (2, 2), (2, 3), (2, 4), (2, 5), (1, 6), (1, 8), (2, 12), (1, 40), (1, 300)])
+    back = min(back, len(free))
+    at = len(free) - back                       # index into free of the NDEF TLV tag byte
+    if at >= 6 and sim.chance("walk.proprietary", 0.4):
+        n = sim.randint("walk.fd.len", 0, min(at - 2, 40))
+        for i, b in enumerate(bytes([0xFD, n]) + bytes((0x40 + j) & 0xFF for j in range(n))):
+            img[free[at - 2 - n + i]] = b
+    form = sim.pick("walk.form", ["short", "short", "long", "long"])
+    hl = 2 if form == "short" else 4
+    rem = back - hl                             # value bytes that still fit (may be negative)
+    ln = sim.wpick("walk.len", [(3, 0), (2, 1), (3, max(0, rem)), (3, max(0, rem) + 1), (2, max(0, rem) + 2),
+                                (1, max(0, rem - 1)), (1, 254), (1, 255), (1, 0xFFFF)])
+    if form == "short":
+        ln = min(ln, 254)
+    hdr = bytes([0x03, ln]) if form == "short" else bytes([0x03, 0xFF, ln >> 8, ln & 0xFF])
+    pos = [a for a in range(free[at], len(img)) if a not in reserved]
+    for i, b in enumerate(hdr + bytes((0x80 + j) & 0xFF or 1 for j in range(ln))):
+        if i < len(pos):
+            img[pos[i]] = b
+    if hl + ln < len(pos) and sim.chance("walk.term", 0.5):
+        img[pos[hl + ln]] = 0xFE
+    return {"ndef_at": free[at], "form": form, "len": ln, "fits": rem}
+
+
 def build(sim, typ):
     """-> (tags list, physical read units, description, world kwargs)"""
-    kind = sim.wpick("kind", [(4, "mutated"), (2, "random"), (2, "activation"), (2, "palette"), (1, "empty")])
+    kind = sim.wpick("kind", [(4, "mutated"), (2, "random"), (2, "activation"), (2, "palette"), (1, "empty")] +
+                     ([(2, "tlvwalk")] if typ in ("t1", "t2") else []))
     d = {"type": typ, "kind": kind}
     if typ == "t2":
         case = gen.gen_t2(sim)
@@ -106,6 +138,12 @@ def build(sim, typ):
             img = bytearray(rnd.randbytes(len(img)))
             if sim.chance("keepcc", 0.7):
                 img[12], img[13] = 0xE1, 0x10
+        elif kind == "tlvwalk":
+            img[12:16] = bytes([0xE1, 0x10, img[14], 0x00])
+            for a in range(16 + img[14] * 8, len(img)):
+                img[a] = 0xA0 | (a & 0x0F)          # what lies behind the data area is visibly not NDEF data
+            d["walk"] = tlv_walk(sim, img, 16, min(len(img), 16 + img[14] * 8))
+            d["image"] = img
         sil = t2t.T2TSilicon(img, uid=uid, rollover=not sim.chance("norollover", 0.3),
                              sens_res=sim.pick("sens_res", [b"\x44\x00", b"\x04\x00", b"\x44\x03"]),
                              sel_res=b"\x00")
@@ -131,6 +169,13 @@ def build(sim, typ):
                 img[8], img[9] = 0xE1, 0x10
         elif kind == "activation":
             hr = bytes([sim.pick("hr0", [0x11, 0x12, 0x10, 0x1F, 0x13]), sim.choose("hr1", 256)])
+        elif kind == "tlvwalk":
+            img[8:12] = bytes([0xE1, 0x10, img[10], 0x00])
+            end = (img[10] + 1) * 8
+            for a in range(end, len(img)):
+                img[a] = 0xA0 | (a & 0x0F)
+            d["walk"] = tlv_walk(sim, img, 12, min(len(img), end), set(range(104, 120 if end == 120 else 128)))
+            d["image"] = img
         sil = t1t.T1TSilicon(img, hr=hr, beyond=case.beyond)
         if kind in ("palette", "empty"):
             pal = [hr + bytes(img[0:120]), hr + bytes(4), bytes(2), bytes(9), bytes(129), b"\x00" * 122,
@@ -232,7 +277,8 @@ def build(sim, typ):
             cc[0:2] = len(cc).to_bytes(2, "big")
             f = app.files[app.ndef_fid]
             f[:] = nlen.to_bytes(4, "big") + bytes(f[4:]) + bytes(total - len(f))
-            case.mle = 0xFF
+            case.mle, case.chunk, case.wtx_every = 0xFF, None, 0      # keep the run short: full size answers, no WTX
+            sil.chunk, sil.wtx_plan = None, None
             d["huge"] = [total, nlen]
         elif m == "nlen_big":
             f = app.files[app.ndef_fid]
@@ -285,6 +331,11 @@ def build(sim, typ):
             poll = {"sensb_res": b"\x50" + case.uid[:4] + bytes(4) + b"\x00\x81\x41"}
         sil = Palette(case.tech, poll, pal, sim)
         return [sil], 64, dict(d, tech=case.tech), {"max_send": case.max_send, "max_recv": case.max_recv}
+    if sim.chance("t4.wtx_forever", 0.04):
+        # a card that answers every S(WTX) response with the next S(WTX) request
+        sil.wtx_plan = lambda kind: 1
+        sil.wtx_repeat = None
+        d["wtx_forever"] = True
     d.update(tech=case.tech, file=len(app.files.get(app.ndef_fid, b"")))
     units = len(app.files.get(app.ndef_fid, b"")) // max(1, min(case.mle, 15)) + 64
     # a card that chains its answers in small blocks and asks for waiting time extensions needs that many
@@ -302,6 +353,7 @@ def run_one(sim, params):
     nfc = core.import_nfc()
     typ = params["type"]
     tags, units, desc, kw = build(sim, typ)
+    image = desc.pop("image", None)
     bound = 4 * units + 256
     stop_after = None
     if sim.chance("stop", 0.3):
@@ -319,7 +371,7 @@ def run_one(sim, params):
         try:
             tag = w.discover()
         except BudgetExceeded as e:
-            raise Violation("unbounded", "%s activate" % typ, "activation sent more than %d commands; %r" % (bound, desc))
+            raise Violation("unbounded", "%s activate%s" % (typ, " wtx-forever" if desc.get("wtx_forever") else ""), "activation sent more than %d commands; %r" % (bound, desc))
         except Exception as e:
             raise Violation("activate-raised", "%s %s" % (typ, core.exc_site(e)),
                             "nfc.tag.activate raised %r (%s); %r" % (e, core.exc_line(e), desc))
@@ -336,7 +388,7 @@ def run_one(sim, params):
                     if ndef is not None:
                         ln, cap, octets = ndef.length, ndef.capacity, ndef.octets
             except BudgetExceeded:
-                raise Violation("unbounded", "%s ndef" % typ, "reading tag.ndef sent more than %d commands "
+                raise Violation("unbounded", "%s ndef%s" % (typ, " wtx-forever" if desc.get("wtx_forever") else ""), "reading tag.ndef sent more than %d commands "
                                 "(tag has %d read units); %r" % (bound, units, desc))
             except Exception as e:
                 raise Violation("ndef-raised", "%s %s%s" % (typ, core.exc_site(e), " (empty response)" if desc["kind"] == "empty" else ""),
@@ -350,6 +402,20 @@ def run_one(sim, params):
                 if not (0 <= ln <= cap) or len(octets) != ln:
                     raise Violation("length-capacity", typ, "NDEF object with length %d, capacity %d, %d octets on %s; %r"
                                     % (ln, cap, len(octets), type(tag).__name__, desc))
+                if image is not None and not w.device.removed:
+                    # independent reading of the same memory: the message TLV with its length field and value must lie
+                    # inside the data area the capability container declares
+                    ref = t2t.parse_t2t(bytes(image)) if typ == "t2" else t1t.parse_t1t(bytes(image), tags[0].hr[0])
+                    # (the statement speaks of the octets: an empty message has none, wherever its TLV header lies)
+                    inside = ln == 0 or (ref.get("status") == "ok" and ref["last"] <= ref["end"])
+                    sim.probe("walk.object_inside" if inside else "walk.object_outside")
+                    if not inside:
+                        raise Violation("outside-area", "%s %s" % (typ, desc["walk"]["form"]),
+                                        "NDEF object (%d octets, capacity %d) for a message TLV at %d that does not lie inside the "
+                                        "data area ending at %s (reference reading: %s, value ends at %s); %r"
+                                        % (ln, cap, desc["walk"]["ndef_at"], ref.get("end"), ref.get("status"), ref.get("last"), desc))
+                    if ln and bytes(octets) != ref["value"]:
+                        raise Violation("octets", typ, "NDEF octets differ from the reference reading of the memory; %r" % (desc,))
         if w.device.removed:
             sim.probe("stopped")
             sim.fault("tag_stops_answering")
